@@ -242,25 +242,7 @@ func c18LibraryIsSilent(c *Ctx) {
 		ord := ordinal{}
 		for _, b := range fn.Blocks {
 			for _, ins := range b.Instrs {
-				what := ""
-				switch x := ins.(type) {
-				case ssa.CallInstruction:
-					name := funcFullName(ssaCalleeObj(x))
-					switch {
-					case name == "fmt.Print" || name == "fmt.Printf" || name == "fmt.Println":
-						what = name
-					case strings.HasPrefix(name, "log.") || strings.HasPrefix(name, "(*log.Logger)."):
-						what = name
-					}
-					if bi, ok := x.Common().Value.(*ssa.Builtin); ok && (bi.Name() == "print" || bi.Name() == "println") {
-						what = bi.Name()
-					}
-				}
-				for _, op := range ins.Operands(nil) {
-					if g, ok := (*op).(*ssa.Global); ok && g.Pkg != nil && g.Pkg.Pkg.Path() == "os" && (g.Name() == "Stdout" || g.Name() == "Stderr") {
-						what = "os." + g.Name()
-					}
-				}
+				what := stdStreamWrite(ins)
 				if what == "" {
 					continue
 				}
@@ -272,6 +254,7 @@ func c18LibraryIsSilent(c *Ctx) {
 			}
 		}
 	}
+	canaryCheck(c, "C18.W8", []string{"fmt.Println", "os.Stderr", "log.Printf"}, stdStreamWrite)
 	if bad == 0 {
 		r.OK("C18.W8", "census", "", fmt.Sprintf("%d functions in reach of the library's entry points: none writes to standard output or standard error", n))
 	}
@@ -1053,6 +1036,29 @@ func c12DegenerateProfiles(c *Ctx, ridMsg, ridConn string) {
 					continue
 				}
 				return false, "the text " + shortFormat(alt.String()) + ", used when " + shortFormat(v.Alts[i]) + ", which does not exclude the empty text"
+			}
+			return true, ""
+		}
+		// the result of a helper with several returns: each alternative under the path conditions of its return
+		if v.K == symChoice && len(v.AltUnder) == len(v.Parts) {
+			for i, alt := range v.Parts {
+				if ok, _ := nonEmpty(alt); ok {
+					continue
+				}
+				implied := false
+				for _, pc := range v.AltUnder[i] {
+					cnd := pc.Cond
+					if pc.Neg {
+						cnd = &Sym{K: symNot, X: pc.Cond}
+					}
+					if impliesNonEmpty(cnd, alt) {
+						implied = true
+					}
+				}
+				if implied {
+					continue
+				}
+				return false, "the text " + shortFormat(alt.String()) + ", returned by a helper when " + shortFormat(v.Alts[i]) + ", which does not exclude the empty text"
 			}
 			return true, ""
 		}
@@ -2125,101 +2131,84 @@ func c07AssertionsTotal(c *Ctx) {
 		return ts, complete
 	}
 	n := 0
-	for _, f := range pk.Syntax {
-		for _, d := range f.Decls {
-			fd, ok := d.(*ast.FuncDecl)
-			if !ok || fd.Body == nil {
-				continue
+	_ = info
+	reachesPanic := func(start *ssa.BasicBlock) bool {
+		seen := map[*ssa.BasicBlock]bool{}
+		var dfs func(b *ssa.BasicBlock, depth int) bool
+		dfs = func(b *ssa.BasicBlock, depth int) bool {
+			if b == nil || seen[b] || depth > 5 || len(b.Instrs) == 0 {
+				return false
 			}
-			// locals assigned once from a call
-			from := map[types.Object]*ast.CallExpr{}
-			count := map[types.Object]int{}
-			ast.Inspect(fd.Body, func(nd ast.Node) bool {
-				if as, ok := nd.(*ast.AssignStmt); ok && len(as.Lhs) == len(as.Rhs) {
-					for i, l := range as.Lhs {
-						if id, ok := l.(*ast.Ident); ok {
-							o := info.Defs[id]
-							if o == nil {
-								o = info.Uses[id]
-							}
-							if o != nil {
-								count[o]++
-								if call, ok := ast.Unparen(as.Rhs[i]).(*ast.CallExpr); ok {
-									from[o] = call
-								}
-							}
-						}
-					}
-				}
+			seen[b] = true
+			switch b.Instrs[len(b.Instrs)-1].(type) {
+			case *ssa.Panic:
 				return true
-			})
-			callOf := func(e ast.Expr) *ast.CallExpr {
-				switch x := ast.Unparen(e).(type) {
-				case *ast.CallExpr:
-					return x
-				case *ast.Ident:
-					if o := info.Uses[x]; o != nil && count[o] == 1 {
-						return from[o]
-					}
-				}
-				return nil
+			case *ssa.Return:
+				return false
 			}
-			ast.Inspect(fd.Body, func(nd ast.Node) bool {
-				ts, ok := nd.(*ast.TypeSwitchStmt)
+			for _, sc := range b.Succs {
+				if dfs(sc, depth+1) {
+					return true
+				}
+			}
+			return false
+		}
+		return dfs(start, 0)
+	}
+	for _, fn := range p.ModuleFuncs() {
+		if RelPkg(fn) != "internal/generator" {
+			continue
+		}
+		// values that are the (interface) result of a call of a module function
+		for _, b := range fn.Blocks {
+			for _, ins := range b.Instrs {
+				call, ok := ins.(*ssa.Call)
 				if !ok {
-					return true
+					continue
 				}
-				var subject ast.Expr
-				switch a := ts.Assign.(type) {
-				case *ast.AssignStmt:
-					if len(a.Rhs) == 1 {
-						if ta, ok := ast.Unparen(a.Rhs[0]).(*ast.TypeAssertExpr); ok {
-							subject = ta.X
-						}
-					}
-				case *ast.ExprStmt:
-					if ta, ok := ast.Unparen(a.X).(*ast.TypeAssertExpr); ok {
-						subject = ta.X
-					}
+				callee := call.Call.StaticCallee()
+				if callee == nil || !IsModuleFunc(callee) || callee.Object() == nil {
+					continue
 				}
-				call := callOf(subject)
-				if call == nil {
-					return true
-				}
-				fn, _ := calleeOf(info, call).(*types.Func)
-				if fn == nil || fn.Pkg() == nil || !strings.HasPrefix(fn.Pkg().Path(), ModulePath) {
-					return true
+				if _, isIface := call.Type().Underlying().(*types.Interface); !isIface {
+					continue
 				}
 				var handled []types.Type
 				panics := false
-				for _, cl := range ts.Body.List {
-					cc := cl.(*ast.CaseClause)
-					if cc.List == nil {
-						ast.Inspect(cc, func(q ast.Node) bool {
-							if pc, ok := q.(*ast.CallExpr); ok {
-								if id, ok := pc.Fun.(*ast.Ident); ok && id.Name == "panic" {
-									panics = true
-								}
-							}
-							return true
-						})
+				for _, ref := range nonDebugRefs(call) {
+					ta, ok := ref.(*ssa.TypeAssert)
+					if !ok || ta.X != ssa.Value(call) {
 						continue
 					}
-					for _, e := range cc.List {
-						if tv, ok := info.Types[e]; ok && tv.Type != nil {
-							handled = append(handled, tv.Type)
+					handled = append(handled, ta.AssertedType)
+					if !ta.CommaOk {
+						panics = true
+						continue
+					}
+					for _, r2 := range nonDebugRefs(ta) {
+						ex, ok := r2.(*ssa.Extract)
+						if !ok || ex.Index != 1 {
+							continue
+						}
+						for _, r3 := range nonDebugRefs(ex) {
+							if iff, ok := r3.(*ssa.If); ok && iff.Cond == ssa.Value(ex) && reachesPanic(iff.Block().Succs[1]) {
+								panics = true
+							}
 						}
 					}
 				}
-				if !panics {
-					return true
+				if len(handled) == 0 || !panics {
+					continue
 				}
-				key := relOf(pk) + "." + fd.Name.Name + "#switch-on:" + funcFullName(fn)
-				rts, complete := returned(fn)
+				cf, _ := callee.Object().(*types.Func)
+				if cf == nil {
+					continue
+				}
+				key := FuncKey(fn) + "#switch-on:" + funcFullName(cf)
+				rts, complete := returned(cf)
 				if !complete || len(rts) == 0 {
-					// an interface method or a value the callee obtained elsewhere: not decided here
-					r.Analysed["H15_not_decided:"+key] = "the concrete types returned by " + funcFullName(fn) + " are not all visible in its body"
-					return true
+					r.Analysed["H15_not_decided:"+key] = "the concrete types returned by " + funcFullName(cf) + " are not all visible in its body"
+					continue
 				}
 				n++
 				var missing []string
@@ -2236,104 +2225,259 @@ func c07AssertionsTotal(c *Ctx) {
 						missing = append(missing, types.TypeString(rt, func(p *types.Package) string { return p.Name() }))
 					}
 				}
-				r.Check(len(missing) == 0, "C07.H15", key, p.Pos(ts.Pos()), "every type the callee returns has a case", funcFullName(fn)+" can return "+strings.Join(missing, ", ")+", which the switch sends to its panicking default: the translation of a well-formed profile that gets here stops with that panic")
-				return true
-			})
+				r.Check(len(missing) == 0, "C07.H15", key, p.Pos(call.Pos()), "every type the callee returns is asserted", funcFullName(cf)+" can return "+strings.Join(missing, ", ")+", for which the type switch / assertion on its result panics: the translation of a well-formed profile that gets here stops with that panic")
+			}
 		}
 	}
 	if n == 0 {
-		r.Unknown("C07.H15", "switches", "", "no type switch with a panicking default over the result of a model function was found in the translator")
+		r.Unknown("C07.H15", "switches", "", "no type switch or assertion that panics otherwise, over the result of a model function, was found in the translator")
 	}
 }
 
 // c01IndependentKeys (R14): the constraints written under one property are a conjunction: each keyword that is present
 // adds its own conjunct, whatever other keywords are present (`atLeast` and `atMost` together are the only way to say
-// "between").  Decided on the value the constraint parser returns (E-sym): a function of the profile parser that reads
-// constant keys from one node and returns a list assembled from conditional parts must have, for every key it reads, a
-// part whose condition speaks about that key and about no other key it reads.
+// "between").  The rule looks for the two ways in which one keyword can silence another, in the functions of the profile
+// parser that read several constant keywords from one node and return a list (SSA form, so it does not matter how the
+// list is put together): (a) the nodes or values read under two different keywords are merged into one variable that is
+// then parsed once (a `switch` that picks "the" qualified constraint); (b) what is read under one keyword is handed to a
+// parser or constructor only on one outcome of a test about another keyword (an else-if chain), error exits excepted.
 func c01IndependentKeys(c *Ctx) {
 	r, p := c.R, c.P
-	r.Rule("C01.R14", "every constraint keyword of a property adds its conjunct independently of the other keywords", 20)
-	pk := p.Pkg("internal/parser/profile")
-	if pk == nil {
-		r.Unknown("C01.R14", "package", "", "internal/parser/profile not found")
-		return
-	}
-	found := 0
-	for _, f := range pk.Syntax {
-		for _, d := range f.Decls {
-			fd, ok := d.(*ast.FuncDecl)
-			if !ok || fd.Body == nil || fd.Type.Results == nil {
-				continue
+	r.Rule("C01.R14", "every constraint keyword of a property adds its conjunct independently of the other keywords: values read under different keywords are never merged, and none is parsed only on one outcome of a test about another", 1)
+	judged, keysSeen := 0, 0
+	for _, fn := range p.ModuleFuncs() {
+		if RelPkg(fn) != "internal/parser/profile" || len(fn.Blocks) == 0 {
+			continue
+		}
+		returnsList := false
+		for i := 0; i < fn.Signature.Results().Len(); i++ {
+			if _, ok := fn.Signature.Results().At(i).Type().Underlying().(*types.Slice); ok {
+				returnsList = true
 			}
-			keys := map[string]bool{}
-			var best *Sym
-			proto := &symWalker{Inline: func(*types.Func) bool { return false }}
-			proto.OnCall = func(w *symWalker, call *ast.CallExpr, fn types.Object, args []*Sym, result *Sym) {
-				if w.depth != 0 || fn == nil || fn.Name() != "Get" || len(args) != 1 {
-					return
+		}
+		if !returnsList {
+			continue
+		}
+		// reads of constant keys from a parameter
+		type read struct {
+			key  string
+			call *ssa.Call
+		}
+		var reads []read
+		for _, b := range fn.Blocks {
+			for _, ins := range b.Instrs {
+				call, ok := ins.(*ssa.Call)
+				if !ok || len(call.Call.Args) != 2 {
+					continue
 				}
-				if k, ok := args[0].ConstString(); ok {
-					keys[k] = true
+				callee := call.Call.StaticCallee()
+				if callee == nil || callee.Name() != "Get" || !strings.HasSuffix(RelPkg(callee), "internal/parser/yaml") {
+					continue
 				}
-			}
-			proto.OnReturn = func(w *symWalker, ret *ast.ReturnStmt, results []*Sym) {
-				if w.depth != 0 || len(results) == 0 || results[0].K != symList {
-					return
+				if _, isParam := call.Call.Args[0].(*ssa.Parameter); !isParam {
+					continue
 				}
-				if best == nil || len(results[0].Parts) > len(best.Parts) {
-					best = results[0]
-				}
-			}
-			p.SymWalk(pk, fd, proto, nil)
-			if best == nil || len(keys) < 5 {
-				continue
-			}
-			mentions := func(text, k string) bool { return strings.Contains(text, `Get("`+k+`")`) }
-			conditional := 0
-			for _, part := range best.Parts {
-				if part.K == symWhen {
-					conditional++
-				}
-			}
-			if conditional < 5 {
-				continue
-			}
-			found++
-			fkey := relOf(pk) + "." + fd.Name.Name
-			for _, k := range sortedKeys(keys) {
-				own, shared := false, ""
-				for _, part := range best.Parts {
-					if part.K != symWhen || !mentions(part.String(), k) {
-						continue
-					}
-					others := []string{}
-					for o := range keys {
-						if o != k && mentions(part.Name, o) {
-							others = append(others, o)
-						}
-					}
-					if len(others) == 0 && mentions(part.Name, k) {
-						own = true
-					} else if shared == "" {
-						sort.Strings(others)
-						shared = strings.Join(others, ", ")
-					}
-				}
-				switch {
-				case own:
-					r.OK("C01.R14", fkey+"#"+k, p.Pos(fd.Pos()), "adds its conjunct when present, whatever else is present")
-				case shared != "":
-					r.Bad("C01.R14", fkey+"#"+k, p.Pos(fd.Pos()), "the conjunct of `"+k+"` is added under a condition that also depends on "+shared+": written together, one of them is silently dropped from the conjunction")
-				default:
-					r.Bad("C01.R14", fkey+"#"+k, p.Pos(fd.Pos()), "the key `"+k+"` is read but no part of the returned conjunction is added under a condition about it alone: the constraint is dropped, or depends on which other keywords are present")
+				if k, ok := constStringOf(unwrapIface(call.Call.Args[1])); ok {
+					reads = append(reads, read{k, call})
 				}
 			}
 		}
+		distinct := map[string]bool{}
+		for _, rd := range reads {
+			distinct[rd.key] = true
+		}
+		if len(distinct) < 2 {
+			continue
+		}
+		judged++
+		keysSeen += len(distinct)
+		// what derives from each read: forward closure over the SSA graph (not through the accumulated list: a value
+		// of slice-of-interface type built by append is the conjunction itself)
+		taint := map[ssa.Value]map[string]bool{}
+		direct := map[ssa.Value]string{} // the read node itself and what its accessors return
+		add := func(v ssa.Value, k string) bool {
+			if taint[v] == nil {
+				taint[v] = map[string]bool{}
+			}
+			if taint[v][k] {
+				return false
+			}
+			taint[v][k] = true
+			return true
+		}
+		for _, rd := range reads {
+			add(rd.call, rd.key)
+			direct[rd.call] = rd.key
+		}
+		isAccumulator := func(v ssa.Value) bool {
+			sl, ok := v.Type().Underlying().(*types.Slice)
+			if !ok {
+				return false
+			}
+			_, iface := sl.Elem().Underlying().(*types.Interface)
+			return iface
+		}
+		changed := true
+		for changed {
+			changed = false
+			for _, b := range fn.Blocks {
+				for _, ins := range b.Instrs {
+					v, ok := ins.(ssa.Value)
+					if !ok || isAccumulator(v) {
+						continue
+					}
+					if _, isPhi := ins.(*ssa.Phi); isPhi {
+						for _, e := range ins.(*ssa.Phi).Edges {
+							for k := range taint[e] {
+								if add(v, k) {
+									changed = true
+								}
+							}
+						}
+						continue
+					}
+					for _, op := range ins.Operands(nil) {
+						if *op == nil {
+							continue
+						}
+						for k := range taint[*op] {
+							if add(v, k) {
+								changed = true
+							}
+						}
+						// accessors of the node and the parts of what they return stay "direct"
+						if k, ok := direct[*op]; ok {
+							switch x := ins.(type) {
+							case *ssa.Extract:
+								if _, isErr := x.Type().Underlying().(*types.Interface); !isErr {
+									direct[v] = k
+								}
+							case *ssa.Call:
+								if callee := x.Call.StaticCallee(); callee != nil && strings.HasSuffix(RelPkg(callee), "internal/parser/yaml") && len(x.Call.Args) > 0 && x.Call.Args[0] == *op {
+									direct[v] = k
+								}
+							}
+						}
+					}
+				}
+			}
+		}
+		fkey := FuncKey(fn)
+		// (a) merges of direct values of different keys
+		merged := map[string]bool{}
+		for _, b := range fn.Blocks {
+			for _, ins := range b.Instrs {
+				phi, ok := ins.(*ssa.Phi)
+				if !ok {
+					continue
+				}
+				ks := map[string]bool{}
+				for _, e := range phi.Edges {
+					if k, ok := direct[e]; ok {
+						ks[k] = true
+					}
+				}
+				if len(ks) >= 2 {
+					merged[strings.Join(sortedKeys(ks), "+")] = true
+					r.Bad("C01.R14", fkey+"#merged:"+strings.Join(sortedKeys(ks), "+"), p.Pos(phi.Pos()), "what is read under the keywords "+strings.Join(sortedKeys(ks), ", ")+" is merged into one variable and parsed once: written together, all but one of them are silently dropped from the conjunction")
+				}
+			}
+		}
+		// (b) a key's value handed to a module function only on one outcome of a test about another key
+		dom := func(a, b *ssa.BasicBlock) bool { return a.Dominates(b) }
+		errorExit := func(b *ssa.BasicBlock) bool {
+			// the block (or the single chain from it) ends in a panic or in a return whose last result is not the nil constant
+			for i := 0; i < 4 && b != nil; i++ {
+				if len(b.Instrs) == 0 {
+					return false
+				}
+				switch last := b.Instrs[len(b.Instrs)-1].(type) {
+				case *ssa.Panic:
+					return true
+				case *ssa.Return:
+					if n := len(last.Results); n > 0 {
+						if cst, ok := last.Results[n-1].(*ssa.Const); ok && cst.IsNil() {
+							return false
+						}
+						if _, isIface := last.Results[n-1].Type().Underlying().(*types.Interface); isIface {
+							return true
+						}
+					}
+					return false
+				case *ssa.Jump:
+					b = b.Succs[0]
+				default:
+					return false
+				}
+			}
+			return false
+		}
+		reported := map[string]bool{}
+		for _, b := range fn.Blocks {
+			for _, ins := range b.Instrs {
+				call, ok := ins.(*ssa.Call)
+				if !ok {
+					continue
+				}
+				callee := call.Call.StaticCallee()
+				if callee == nil || !IsModuleFunc(callee) || strings.HasSuffix(RelPkg(callee), "internal/parser/yaml") {
+					continue
+				}
+				used := map[string]bool{}
+				for _, a := range call.Call.Args {
+					if k, ok := direct[a]; ok {
+						used[k] = true
+					}
+				}
+				if len(used) != 1 {
+					continue
+				}
+				k2 := sortedKeys(used)[0]
+				for _, d := range fn.Blocks {
+					if d == b || !dom(d, b) || len(d.Instrs) == 0 {
+						continue
+					}
+					iff, ok := d.Instrs[len(d.Instrs)-1].(*ssa.If)
+					if !ok {
+						continue
+					}
+					ks := taint[iff.Cond]
+					if len(ks) == 0 || ks[k2] {
+						continue
+					}
+					only := -1
+					for i, sc := range d.Succs {
+						if dom(sc, b) && len(sc.Preds) == 1 {
+							only = i
+						}
+					}
+					if only < 0 || errorExit(d.Succs[1-only]) {
+						continue
+					}
+					other := strings.Join(sortedKeys(ks), ", ")
+					key := fkey + "#" + k2 + "-depends-on:" + other
+					if !reported[key] {
+						reported[key] = true
+						r.Bad("C01.R14", key, p.Pos(call.Pos()), "what is read under `"+k2+"` is handed to "+FuncKey(callee)+" only on one outcome of a test about "+other+": written together, the conjunct of `"+k2+"` is silently dropped (or kept) depending on the other keyword")
+					}
+				}
+			}
+		}
+		if len(merged) == 0 && len(reported) == 0 {
+			r.OK("C01.R14", fkey, p.Pos(fn.Pos()), fmt.Sprintf("%d keywords read from one node: none merged with another, none parsed under a test about another", len(distinct)))
+		}
 	}
-	if found == 0 {
-		r.Unknown("C01.R14", "constraint-parser", "", "no function that reads constraint keywords from a node and returns the list of conjuncts was found")
+	r.Analysed["R14_keywords_in_judged_functions"] = keysSeen
+	if judged == 0 {
+		r.Unknown("C01.R14", "constraint-parser", "", "no function of the profile parser reads two or more constant keywords from one node and returns a list")
 	}
+}
+
+func unwrapIface(v ssa.Value) ssa.Value {
+	if mi, ok := v.(*ssa.MakeInterface); ok {
+		return mi.X
+	}
+	return v
 }
 
 // exactExpansion: a compact IRI prefix.name stands for the namespace bound to the prefix followed by the local name, and
@@ -2521,9 +2665,9 @@ func everyTypeIndexed(c *Ctx, rid string) {
 				continue
 			}
 			site := 0
-			proto := &symWalker{Inline: func(*types.Func) bool { return false }}
+			proto := &symWalker{Inline: samePkgInline(pk)}
 			proto.OnStore = func(w *symWalker, at ast.Node, target *Sym, key *Sym, val *Sym) {
-				if w.depth != 0 || key == nil || len(w.loopFrames) == 0 {
+				if key == nil || len(w.loops) == 0 {
 					return
 				}
 				as, ok := at.(*ast.AssignStmt)
@@ -2547,12 +2691,11 @@ func everyTypeIndexed(c *Ctx, rid string) {
 				for _, l := range w.leftSoFar() {
 					why = append(why, "skipped after "+l)
 				}
-				base := w.loopFrames[0].base
-				if base > len(w.conds) {
-					base = len(w.conds)
-				}
-				for _, cnd := range w.conds[base:] {
+				for _, cnd := range w.conds {
 					t := cnd.String()
+					if !strings.Contains(t, "[*]") {
+						continue // not about an element of the loops
+					}
 					if strings.Contains(t, "typeis(") || strings.Contains(t, "result1(") && strings.Contains(t, ".(") {
 						continue // the kind of value @type holds (one text or a list)
 					}
@@ -2745,29 +2888,6 @@ func normFmt(fn string) bool {
 func exactNumbers(c *Ctx, rid string) {
 	r, p := c.R, c.P
 	r.Rule(rid, "JSON is decoded into untyped values only by a decoder that keeps number literals (UseNumber): no number is routed through float64", 1)
-	untyped := func(t types.Type) bool {
-		if pt, ok := t.Underlying().(*types.Pointer); ok {
-			t = pt.Elem()
-		}
-		var has func(t types.Type, d int) bool
-		has = func(t types.Type, d int) bool {
-			if d > 4 {
-				return false
-			}
-			switch u := t.Underlying().(type) {
-			case *types.Interface:
-				return true
-			case *types.Map:
-				return has(u.Elem(), d+1)
-			case *types.Slice:
-				return has(u.Elem(), d+1)
-			case *types.Pointer:
-				return has(u.Elem(), d+1)
-			}
-			return false
-		}
-		return has(t, 0)
-	}
 	reach := p.Reach(libraryEntries(p)...)
 	n := 0
 	for _, fn := range sortedFuncs(reach) {
@@ -2783,36 +2903,13 @@ func exactNumbers(c *Ctx, rid string) {
 		}
 		for _, b := range fn.Blocks {
 			for _, ins := range b.Instrs {
-				ci, ok := ins.(ssa.CallInstruction)
-				if !ok {
-					continue
-				}
-				name := funcFullName(ssaCalleeObj(ci))
-				args := ci.Common().Args
-				switch name {
-				case "encoding/json.Unmarshal":
-					if len(args) == 2 {
-						tgt := args[1]
-						if mi, ok := tgt.(*ssa.MakeInterface); ok {
-							tgt = mi.X
-						}
-						if untyped(tgt.Type()) {
-							n++
-							r.Bad(rid, ord.next(FuncKey(fn)+"#json.Unmarshal"), p.Pos(ins.Pos()), "json.Unmarshal into an untyped value turns every number into a float64: a line or column above 2^53 (and any large integer of the data) comes out changed")
-						}
-					}
-				case "(*encoding/json.Decoder).Decode":
-					if len(args) == 2 {
-						tgt := args[1]
-						if mi, ok := tgt.(*ssa.MakeInterface); ok {
-							tgt = mi.X
-						}
-						if !untyped(tgt.Type()) {
-							continue
-						}
-						n++
-						r.Check(exact[args[0]], rid, ord.next(FuncKey(fn)+"#Decoder.Decode"), p.Pos(ins.Pos()), "the decoder keeps number literals (UseNumber)", "the decoder decodes into an untyped value without UseNumber: every number becomes a float64, so a line or column above 2^53 comes out changed")
-					}
+				switch kind, dec := untypedJSONTarget(ins); kind {
+				case "json.Unmarshal":
+					n++
+					r.Bad(rid, ord.next(FuncKey(fn)+"#json.Unmarshal"), p.Pos(ins.Pos()), "json.Unmarshal into an untyped value turns every number into a float64: a line or column above 2^53 (and any large integer of the data) comes out changed")
+				case "Decoder.Decode":
+					n++
+					r.Check(exact[dec], rid, ord.next(FuncKey(fn)+"#Decoder.Decode"), p.Pos(ins.Pos()), "the decoder keeps number literals (UseNumber)", "the decoder decodes into an untyped value without UseNumber: every number becomes a float64, so a line or column above 2^53 comes out changed")
 				}
 			}
 		}
@@ -2820,6 +2917,10 @@ func exactNumbers(c *Ctx, rid string) {
 	if n == 0 {
 		r.Unknown(rid, "decoders", "", "no JSON decoding into an untyped value was found in reach of the library's entry points")
 	}
+	canaryCheck(c, rid, []string{"json.Unmarshal", "Decoder.Decode"}, func(ins ssa.Instruction) string {
+		k, _ := untypedJSONTarget(ins)
+		return k
+	})
 }
 
 // c13DefaultOnlyForEmpty (Q10): "the report shows the message as written".  The profile parser substitutes a default text
@@ -3003,9 +3104,10 @@ func c08WrittenModuleSearched(c *Ctx) {
 			}
 			calls := map[string]bool{}
 			globals := map[string]bool{}
+			seenFn := map[*ssa.Function]bool{}
 			var visit func(f *ssa.Function, depth int)
 			visit = func(f *ssa.Function, depth int) {
-				if f == nil || depth > 3 {
+				if f == nil || depth > 5 {
 					return
 				}
 				for _, b := range f.Blocks {
@@ -3019,6 +3121,11 @@ func c08WrittenModuleSearched(c *Ctx) {
 						for _, op := range ins.Operands(nil) {
 							if g, ok := (*op).(*ssa.Global); ok {
 								globals[g.Name()] = true
+							}
+							// functions handed on as values (closures, bound methods given to a visitor)
+							if g, ok := (*op).(*ssa.Function); ok && g != f && (IsModuleFunc(g) || g.Synthetic != "") && !seenFn[g] {
+								seenFn[g] = true
+								visit(g, depth+1)
 							}
 						}
 					}
